@@ -576,7 +576,6 @@ def run_impl(real, seqs):
         loop.close()
 
 
-IDLE_VIEW = None
 
 
 def oracle(ctx, real, seq, steps):
@@ -602,7 +601,9 @@ def oracle(ctx, real, seq, steps):
             removed_serving = True
         if k == "R" and serving_before == about and msg[3] != 0:
             removed_serving = True
-        if view != want:
+        # the app's display name is compared by the correspondence only: which message may carry
+        # a client's name is an MRP detail the property text does not fix
+        if _no_name(view) != _no_name(want):
             if about is not None and serving_before != about and view != prev_impl:
                 ctx.fail(f"other-player-changed-report:{k}", case, list(view), list(prev_impl),
                          "a message about a player that is not the active player of the active client changed the reported state")
@@ -622,6 +623,10 @@ def oracle(ctx, real, seq, steps):
             ctx.fail("position-out-of-range", case, {"position": pos, "total": total}, "0 <= position <= total", "reported position outside [0, total]")
         prev_impl = view
     return changes, removed_serving
+
+
+def _no_name(v):
+    return tuple(v[:7]) + ((v[7][1] if v[7] is not None else None),)
 
 
 def _jsonable(x):
@@ -756,3 +761,31 @@ def replay(ctx, failure):
     else:
         clamp_grid(c2, Real())
     return bool(c2.failures)
+
+
+def _fails_with(ctx, seq, sig):
+    c2 = type(ctx)(ctx.prop, ctx.tier, ctx.seed, ctx.driver.driver_rel)
+    real = Real()
+    steps = run_impl(real, [seq])[0]
+    oracle(c2, real, seq, steps)
+    return next((f for f in c2.failures if f["sig"] == sig), None)
+
+
+def shrink(ctx, failure):
+    """Drop messages one at a time while the real code still fails with the same signature."""
+    case = failure["case"]
+    if "seq" not in case:
+        return failure
+    seq = [tuple(_tuplify(m)) for m in case["seq"]]
+    seq = seq[: case.get("step", len(seq) - 1) + 1]
+    best = _fails_with(ctx, tuple(seq), failure["sig"]) or failure
+    changed = True
+    while changed and len(seq) > 1:
+        changed = False
+        for i in range(len(seq) - 1, -1, -1):
+            cand = seq[:i] + seq[i + 1:]
+            f = _fails_with(ctx, tuple(cand), failure["sig"]) if cand else None
+            if f is not None:
+                seq, best, changed = cand, f, True
+                break
+    return best
